@@ -58,6 +58,15 @@ static void check(int r, const u64* ex, u64 nd, const u64* ls, u64 ld, u32 lv, c
   int r = KN(k_out_##NAME)(ARGS, pre); check(r, ex, nd, ls, ld, lv, es, ed, ev); REACHED(); }
 #define CL(NAME)  void h_cl_##NAME(void){ LOCALS; u64 nd = dom_##NAME(p, ex, n0, n1, &maxidx); dom_index(idx, ex, nd, maxidx); \
   int r = KN(k_cl_##NAME)(ARGS); check(r, ex, nd, ls, ld, lv, es, ed, ev); REACHED(); }
+/* a view with a ZERO extent (a[b:b, c:d], NumPy shape (0, d-c)): there is no element to compare; eval must return an array of exactly that shape */
+void h_ev_slice_empty(void){ LOCALS; u64 nd = 2;
+  i32 b0 = in_i32(0, MAXE), b1 = in_i32(0, MAXE - 1), e1 = in_i32(1, MAXE); ASSUME((u64)b0 <= n0 && b1 < e1 && (u64)e1 <= n1);
+  p[0] = (u32)b0; p[1] = (u32)b0; p[2] = 1; p[3] = (u32)b1; p[4] = (u32)e1; ex[0] = 0; ex[1] = (u64)(e1 - b1);
+  int r = KN(k_ev_slice)(ARGS);
+  ASSERT(r == 3, "both sides exist; no index lies inside a zero-extent shape");
+  ASSERT(ld == 2 && ed == 2, "dim(eval(v)) == dim(v) == 2");
+  for (u64 i = 0; i < 2; i++){ ASSERT(ls[i] == ex[i], "lazy shape == NumPy shape (0, d-c)"); ASSERT(es[i] == ls[i], "shape(eval(v)) == shape(v) also for a zero extent"); }
+  OBS(r); OBS(es[0]); OBS(es[1]); REACHED(); }
 #if RES == 1 || RES == 2
 FRONT(transpose) FRONT(flip)
 #endif
